@@ -248,6 +248,23 @@ def decode_mp(c, vals):
     }
 
 
+def decode_file(short, vals, meta):
+    """file_range_step[_small]: len:u64 a:u64 b:u64 | 3 x (fails:bool n:usize); file_etag_syntax: len inode secs nanos"""
+    r = Reader(vals)
+    if short.startswith("file_range_step"):
+        ln, a, b = r.u64(), r.u64(), r.u64()
+        reads = [{"fails": r.boolean(), "n": r.usize()} for _ in range(3)]
+        if ln > (1 << 26):
+            return None
+        return {"kind": "file", "len": ln, "a": a, "b": b, "reads": reads}
+    if short == "file_etag_syntax":
+        ln = r.u64()
+        if ln > (1 << 26):
+            ln = 1000
+        return {"kind": "file", "len": ln, "a": 0, "b": 0, "reads": []}
+    return None
+
+
 def decode_prep(short, vals):
     """prep_unit_n<k>_<noincl|hN>_<req|any>: len:u64 | 3 x (a:u64 b:u64). A multi-range GET; without
     entity headers in the parts = with an If-Range that matches the entity's strong ETag."""
